@@ -28,12 +28,17 @@ FIXED_TIME = 1790000000
 def plan(tier, seed):
     units = []
     q = tier == 'quick'
-    for op in sorted(OPS):
-        units.append({'kind': 'op', 'op': op, 'repeat': OPS[op].get('repeat_q' if q else 'repeat_t', 250 if q else 1000), 'weight': 3})
-    for proto in ('tlcp', 'tls12', 'tls13'):
-        for role in ('client', 'server'):
-            for mutual in (False, True):
-                units.append({'kind': 'handshake', 'proto': proto, 'role': role, 'mutual': mutual, 'weight': 8})
+    # thorough: every operation and handshake role under several independent entropy streams (the number of draws and
+    # the rejection-sampling paths depend on the stream), the no-reuse run only once per operation
+    reps = 1 if q else 40
+    for rep in range(reps):
+        for op in sorted(OPS):
+            rpt = OPS[op].get('repeat_q' if q else 'repeat_t', 250 if q else 1000)
+            units.append({'kind': 'op', 'op': op, 'repeat': rpt if rep == 0 else min(rpt, 40), 'rep': rep, 'weight': 3})
+        for proto in ('tlcp', 'tls12', 'tls13'):
+            for role in ('client', 'server'):
+                for mutual in (False, True):
+                    units.append({'kind': 'handshake', 'proto': proto, 'role': role, 'mutual': mutual, 'rep': rep, 'weight': 8})
     return units
 
 
@@ -422,7 +427,7 @@ def u_op(ctx, u):
         failed = sh.vf_entropy_failed()
         sh.vf_entropy_fail_at(-1, 0)
         return okk, out, eph, n, nbytes, failed
-    sa, sb = 0x1111 + u['_i'], 0x2222 + u['_i']
+    sa, sb = 0x1111 + u['_i'] + (ctx.seed << 24), 0x2222 + u['_i'] + (ctx.seed << 24)
     okA, outA, ephA, nA, bytesA, _ = run(sa)
     if not ctx.check(okA and nA > 0 and bytesA > 0, 'clean:operation-failed-or-drew-no-entropy:' + name, ok=okA, draws=nA, bytes=bytesA):
         return
@@ -430,13 +435,13 @@ def u_op(ctx, u):
     # (2) determinism
     okA2, outA2, ephA2, nA2, _, _ = run(sa)
     ctx.check(okA2 and outA2 == outA and nA2 == nA, 'determinism:same-stream-different-output:' + name, draws=(nA, nA2))
-    ctx.nontrivial(name, 'determinism')
+    ctx.nontrivial(name, 'determinism', sa)
     # (1) dependence
     okB, outB, ephB, nB, _, _ = run(sb)
     ctx.check(okB and ephB != ephA, 'dependence:ephemeral-value-independent-of-entropy:' + name, eph=ephA[:48].hex())
-    ctx.nontrivial(name, 'dependence')
+    ctx.nontrivial(name, 'dependence', sa)
     # (3) no reuse within one stream
-    sh.vf_entropy_seed(ctypes.c_uint64(0x3333 + u['_i']))
+    sh.vf_entropy_seed(ctypes.c_uint64(0x3333 + u['_i'] + (ctx.seed << 24)))
     seen = {}
     for j in range(u['repeat']):
         ctx.begin([name, 'repeat', j])
@@ -458,8 +463,38 @@ def u_op(ctx, u):
             ctx.stat('faults_not_reached')
             continue
         ctx.check(not okF, 'fail-open:success-despite-failed-draw:' + name, draw=i, of=nA, output=outF[:48].hex())
-        ctx.nontrivial(name, 'fail-at', i)
+        ctx.nontrivial(name, 'fail-at', i, sa)
         ctx.stat('faults_injected')
+    # (5) the same with candidates forced out of range: the first k draws return all-one bytes (>= every modulus, so
+    # a rejection-sampling loop must draw again), then the stream continues; every later draw is failed in turn.  This
+    # reaches "an earlier candidate was rejected and the source fails on the retry" whatever the stream
+    for k in (1, 2):
+        def run_forced(fail_at=-1, k=k):
+            sh.vf_entropy_seed(ctypes.c_uint64(sa))
+            sh.vf_entropy_push(b'\xff' * (32 * k), 32 * k)
+            if fail_at >= 0:
+                sh.vf_entropy_fail_at(fail_at, 0)
+            ctx.begin([name, 'forced', k, fail_at])
+            okk, out, eph = spec['call'](ctx, st)
+            n = sh.vf_entropy_draws()
+            failed = sh.vf_entropy_failed()
+            sh.vf_entropy_fail_at(-1, 0)
+            return okk, out, eph, n, failed
+        okP, outP, ephP, nP, _ = run_forced()
+        if not okP:
+            ctx.stat('info_forced_out_of_range_stream_refused')
+            continue
+        ctx.stat_max('max_draws_with_forced_rejection', nP)
+        if nP > nA:
+            ctx.stat('forced_rejection_caused_extra_draws')
+        for i in range(nP):
+            okF, outF, ephF, nF, failed = run_forced(i)
+            if not failed:
+                ctx.stat('faults_not_reached')
+                continue
+            ctx.check(not okF, 'fail-open:success-despite-failed-draw:' + name, draw=i, of=nP, forced_rejections=k, output=outF[:48].hex())
+            ctx.nontrivial(name, 'forced-fail-at', k, i, sa)
+            ctx.stat('faults_injected')
     ctx.sample({'op': name, 'draws': nA, 'entropy_bytes': bytesA, 'repeat': len(seen)})
 
 
@@ -482,20 +517,21 @@ def u_handshake(ctx, u):
                 'records': recs, 'hung': res['hung']}
         T.close_pair(res)
         return info
-    a = run(101)
+    s1, s2 = 101 + 1000 * u.get('rep', 0) + 100000 * ctx.seed, 202 + 1000 * u.get('rep', 0) + 100000 * ctx.seed
+    a = run(s1)
     cfg = dict(proto=u['proto'], role=role, mutual=u['mutual'])
     if not ctx.check(a['ret'] == 1 and a['peer_ret'] == 1 and a['draws'] > 0, 'clean:honest-handshake-failed', **cfg):
         return
     ctx.stat('draws_total', a['draws'])
-    a2 = run(101)
+    a2 = run(s1)
     ctx.check(a2['records'] == a['records'], 'determinism:same-stream-and-clock-different-flight:' + u['proto'] + ':' + role, **cfg)
-    ctx.nontrivial('hs', u['proto'], role, u['mutual'], 'determinism')
-    b = run(202)
+    ctx.nontrivial('hs', u['proto'], role, u['mutual'], 'determinism', s1)
+    b = run(s2)
     # the first flight of this endpoint carries its random / key share: must differ between streams
     ctx.check(b['ret'] == 1 and b['records'][:1] != a['records'][:1], 'dependence:first-flight-independent-of-entropy:' + u['proto'] + ':' + role, **cfg)
-    ctx.nontrivial('hs', u['proto'], role, u['mutual'], 'dependence')
+    ctx.nontrivial('hs', u['proto'], role, u['mutual'], 'dependence', s1)
     for i in range(a['draws']):
-        f = run(101, fail_at=i)
+        f = run(s1, fail_at=i)
         if f['hung']:
             ctx.violation('harness:handshake-thread-hung', draw=i, **cfg)
             continue
@@ -507,7 +543,7 @@ def u_handshake(ctx, u):
         non_alert = [t for t in f['after_fail_types'] if t != T.REC_ALERT]
         ctx.check(not non_alert, 'fail-open:records-sent-after-failed-draw:%s:%s' % (u['proto'], role), draw=i, of=a['draws'],
                   record_types=f['after_fail_types'], **cfg)
-        ctx.nontrivial('hs', u['proto'], role, u['mutual'], 'fail-at', i)
+        ctx.nontrivial('hs', u['proto'], role, u['mutual'], 'fail-at', i, s1)
         ctx.stat('faults_injected')
     ctx.sample({'handshake': u['proto'], 'role': role, 'mutual': u['mutual'], 'draws': a['draws']})
     srv_ctx.free()
